@@ -119,6 +119,8 @@ Definition run_op (o : list Z) : list Z :=
                 match oc with Panic => 1 | Return => 0 end;
                 Z.of_nat (length trace)] ++ map event_code trace
   | [2; n; _] => [n]                         (* n responses relayed at the same time: every one of them arrives intact *)
+  | [3; n] => [n]                            (* n long-lived (streamed) exchanges with one backend open at the same time:
+                                                every client has received its response head; nobody waits for another *)
   | _ => []
   end.
 
